@@ -213,3 +213,95 @@ Theorem C19_python_offsets :
     Buffer.cp_slice o (Buffer.codepoints_before o b) (Buffer.codepoints_before o e) = Buffer.byte_slice o (b, e).
 Proof. exact (PyOffsets.python_offsets Buffer.the_cfg C19_buffer_facts C19_py_offset_facts). Qed.
 Print Assumptions C19_python_offsets.
+
+(* ---- Dictionary.lookup / MorphemeList::lookup (analysis/mlist.rs, python/src/dictionary.rs) ---- *)
+From SudachiVerif Require Model.Trie Model.WordIdTable Model.LexSet Model.LookupAll Proofs.TrieProofs Proofs.LexSetProofs Proofs.LookupAllProofs.
+From SudachiVerif Require Generated.LookupFacts Generated.LexFacts.
+
+(* fact obligations: the loop of MorphemeList::lookup is `for e in lex.lookup(query, 0)` with exactly ONE `continue`, guarded by
+   `e.end != query.len()`, no `break`, no `return`; behind the guard nothing is conditional, one node carrying e.word_id is
+   pushed and counted.  The requested fields are normalised before word infos are loaded; the binding clears the list,
+   hands its argument on untouched and asks for all fields.  The word-id layout and the search order are those of C04 / C12. *)
+Fact C19_fact_lookup_loop : LookupAllProofs.lookup_loop_ok = true.
+Proof. vm_compute. reflexivity. Qed.
+Fact C19_fact_lookup_glue : LookupAllProofs.lookup_glue_ok = true.
+Proof. vm_compute. reflexivity. Qed.
+Fact C19_fact_lookup_layout : LexSetProofs.layout_ok = true.
+Proof. vm_compute. reflexivity. Qed.
+Fact C19_fact_lookup_last_dictionary_first : Generated.LexFacts.lookup_reversed = true.
+Proof. reflexivity. Qed.
+
+(* the loop keeps exactly the entries that end at the end of the query, in the order of the walk *)
+Theorem C19_lookup_is_filter : forall n es,
+  LookupAll.keep_full n es = map fst (filter (fun we => (snd we =? n)%N) es).
+Proof. exact (LookupAllProofs.keep_full_spec C19_fact_lookup_loop). Qed.
+Print Assumptions C19_lookup_is_filter.
+
+(* (a) for ANY stack of lexicons and ANY tries / tables: whenever the call answers, its answer is -- in order, nothing
+   missing, nothing added -- what every lexicon stores under the WHOLE query (the ids of the table group of the key, stamped
+   with the number of the lexicon), the lexicons in search order; shorter keys a lexicon holds contribute nothing *)
+Theorem C19_lookup_exact : forall lexs q ids,
+  LookupAll.lookup_all lexs q = Some ids -> ids = LookupAll.held_all lexs q.
+Proof. exact (LookupAllProofs.lookup_all_held C19_fact_lookup_loop). Qed.
+Print Assumptions C19_lookup_exact.
+
+(* (a) closed against the SOURCE lexicons: for every stack of dictionaries that pass the certificate of C04 (any number the
+   word-id layout admits) and every byte query, the call answers, and the answer is exactly -- completeness and soundness, in
+   order -- the indexed rows whose surface is the query: last dictionary first, rows of one dictionary in file order *)
+Theorem C19_lookup_rows : forall fuel lexs rowss q,
+  Forall2 (fun L rows => LexSetProofs.cert_prop L rows fuel) lexs rowss -> (List.length lexs <= 16)%nat -> TrieProofs.bytes q ->
+  LookupAll.lookup_all lexs q = Some (LookupAll.rows_answer rowss q).
+Proof. exact (LookupAllProofs.lookup_all_rows C19_fact_lookup_loop C19_fact_lookup_layout). Qed.
+Print Assumptions C19_lookup_rows.
+
+Theorem C19_lookup_rows_of_certificate : forall fuel lexs rowss q,
+  Forall2 (fun L rows => LexSet.cert_lex L rows fuel = true) lexs rowss -> (List.length lexs <= 16)%nat -> TrieProofs.bytes q ->
+  LookupAll.lookup_all lexs q = Some (LookupAll.rows_answer rowss q).
+Proof.
+  intros fuel lexs rowss q HF. apply (C19_lookup_rows fuel).
+  induction HF as [|L rows t rt H _ IH]; constructor; [exact (LexSetProofs.cert_parts L rows fuel H)|exact IH].
+Qed.
+Print Assumptions C19_lookup_rows_of_certificate.
+
+Theorem C19_lookup_answer_members : forall rowss q w,
+  In w (LookupAll.rows_answer rowss q) <->
+  exists d rows r, nth_error rowss d = Some rows /\ In r (LexSet.rows_with q rows) /\ w = LexSet.stamp (N.of_nat d) r.
+Proof. exact LookupAllProofs.rows_answer_in. Qed.
+Print Assumptions C19_lookup_answer_members.
+
+(* (b) nothing of a dictionary searched later is lost: every indexed row of EVERY dictionary of the stack with the surface of
+   the query is in the answer -- whatever the dictionaries searched earlier hold (the query itself, proper prefixes of it) *)
+Theorem C19_lookup_keeps_every_dictionary : forall fuel lexs rowss q,
+  Forall2 (fun L rows => LexSetProofs.cert_prop L rows fuel) lexs rowss -> (List.length lexs <= 16)%nat -> TrieProofs.bytes q ->
+  forall d rows r, nth_error rowss d = Some rows -> In r (LexSet.rows_with q rows) ->
+  exists ids, LookupAll.lookup_all lexs q = Some ids /\ In (LexSet.stamp (N.of_nat d) r) ids.
+Proof. exact (LookupAllProofs.lookup_all_keeps_every_dictionary C19_fact_lookup_loop C19_fact_lookup_layout). Qed.
+Print Assumptions C19_lookup_keeps_every_dictionary.
+
+(* .. spelt out for [system; user 1; user 2]: user 2's rows, then ALL of user 1's, then ALL of the system dictionary's *)
+Theorem C19_lookup_three_dictionaries : forall r0 r1 r2 q,
+  LookupAll.rows_answer [r0; r1; r2] q =
+  map (LexSet.stamp 2) (LexSet.rows_with q r2) ++ map (LexSet.stamp 1) (LexSet.rows_with q r1) ++ map (LexSet.stamp 0) (LexSet.rows_with q r0).
+Proof. exact (LookupAllProofs.rows_answer_three C19_fact_lookup_last_dictionary_first). Qed.
+Print Assumptions C19_lookup_three_dictionaries.
+
+(* ---- `sudachi build` / `sudachi ubuild`: file handling of the tool (sudachi-cli/src/build.rs) ---- *)
+From SudachiVerif Require Model.CliBuild Proofs.CliBuildProofs.
+From SudachiVerif Require Generated.CliBuildFacts.
+
+(* the lexicon files reach the builder in the order and multiplicity of the command line: the loop around read_lexicon
+   iterates cmd.inputs itself, hands its variable on, the list is mentioned nowhere else and the file calls nothing that
+   sorts / de-duplicates / filters / extends a sequence *)
+Fact C19_fact_build_inputs_in_order : CliBuild.build_inputs_ok = true.
+Proof. vm_compute. reflexivity. Qed.
+
+(* [matrix,] lexicons, resolve, output opened, compile, report -- and the report is only reached with everything compiled
+   flushed and the outcome of the flush checked *)
+Fact C19_fact_build_output_flushed : CliBuild.build_output_ok = true.
+Proof. vm_compute. reflexivity. Qed.
+
+Theorem C19_build_flush_spec : forall steps a b c,
+  CliBuild.flushed_before_report false steps = true ->
+  steps = (a ++ "compile"%string :: b ++ "report"%string :: c)%list -> ~ In "compile"%string b -> In "flush_checked"%string b.
+Proof. exact CliBuildProofs.single_compile_flushed. Qed.
+Print Assumptions C19_build_flush_spec.
